@@ -56,7 +56,7 @@ struct C05 : Property
 		p.cfg["track_pct"] = (int64_t)r.pick(std::vector<int>{0, 50, 100});
 		int nops = (int)r.range(5, 60);
 		static const char *kinds[] = {"new", "new", "new", "parse", "get", "get", "put", "put", "oadd", "oadd", "oadd", "odel", "aadd", "aadd", "aput",
-		                              "ains", "adel", "userdata", "serializer", "copy", "pset", "patch", "ofill"};
+		                              "ains", "adel", "userdata", "serializer", "copy", "pset", "patch", "ofill", "asort", "ashrink"};
 		std::vector<std::string> en;
 		for (auto k : kinds)
 			if (r.chance(4, 5))
@@ -133,6 +133,18 @@ struct C05 : Property
 		HarnessScope hs;
 		if (g_st)
 			g_st->callback_tokens.push_back((int64_t)(intptr_t)ud);
+	}
+	static int cmp_by_type_then_address_free(const void *a, const void *b)
+	{
+		struct json_object *x = *(struct json_object *const *)a, *y = *(struct json_object *const *)b;
+		if (!x || !y)
+			return (x ? 1 : 0) - (y ? 1 : 0);
+		int tx = (int)json_object_get_type(x), ty = (int)json_object_get_type(y);
+		if (tx != ty)
+			return tx - ty;
+		int64_t vx = tx == json_type_int ? json_object_get_int64(x) : tx == json_type_string ? json_object_get_string_len(x) : 0;
+		int64_t vy = ty == json_type_int ? json_object_get_int64(y) : ty == json_type_string ? json_object_get_string_len(y) : 0;
+		return vx < vy ? -1 : vx > vy ? 1 : 0;
 	}
 	static int custom_serializer(struct json_object *, struct printbuf *pb, int, int)
 	{
@@ -629,6 +641,17 @@ struct C05 : Property
 						ctx.probe("array.del_range_releases");
 				}
 			}
+			else if (op.kind == "asort" || op.kind == "ashrink")
+			{
+				// reordering / trimming capacity must not touch ownership
+				struct json_object *c = H(op.arg(0));
+				if (!c || LIB(json_object_get_type(c)) != json_type_array)
+					skipped = true;
+				else if (op.kind == "asort")
+					LIBV(json_object_array_sort(c, cmp_by_type_then_address_free));
+				else if (LIB(json_object_array_shrink(c, (int)(op.arg(2) % 4))) != 0 && !g_alloc.fired)
+					ctx.fail("C05:spurious-failure", "op %zu: json_object_array_shrink failed without cause", oi);
+			}
 			else if (op.kind == "userdata")
 			{
 				struct json_object *n = H(op.arg(0));
@@ -718,7 +741,7 @@ struct C05 : Property
 				else
 				{
 					size_t ri = (size_t)(op.arg(0) < 0 ? -op.arg(0) : op.arg(0)) % s.handles.size();
-					int rc = LIB(json_pointer_set(&s.handles[ri], path, v));
+					int rc = (op.arg(3) & 1) ? LIB(json_pointer_setf(&s.handles[ri], v, "%s", path)) : LIB(json_pointer_set(&s.handles[ri], path, v));
 					if (rc == 0)
 					{
 						if (path[0] == '\0')
